@@ -9,6 +9,8 @@ from()/to() in parse_san and in the printer's filters (shared with C15.R2).
 R3 printer and parser select candidates by the same criteria, and the letter
 tables are mutual inverses. R4 buffers: C10. Uniqueness of the printed SAN
 for each concrete position is not decided."""
+import re
+
 from facts import AnalysisBroken
 from prog import walk, kids, short
 from rules.common import strip_casts, const_of, guard_facts, SubCtx
@@ -130,7 +132,26 @@ def string_table(f, name):
 def printer_language(p, f, pk):
     """set of tuples of frozenset(chars) that san_without_check can return"""
     results = set()
+    paths = []
     tables = {}
+
+    def lambda_attrs(lam_node):
+        g = p.funcs.get(lam_node.get('lambda'))
+        out = set()
+        if g is None:
+            return out
+        txt = ' '.join(canon(g, kids(r)[0], inline=False).replace(' ', '') for r in g.all_nodes() if r['k'] == 'ReturnStmt' and kids(r))
+        if 'file(from(m))==file(from(move))' in txt:
+            out.add('file')
+        if 'rank(from(m))==rank(from(move))' in txt:
+            out.add('rank')
+        if 'moved_piece==p' in txt:
+            out.add('kind')
+        if 'to(move)==to(m)' in txt:
+            out.add('target')
+        if 'promotion(move)==promotion(m)' in txt:
+            out.add('promotion')
+        return out
 
     def table_class(tname, idx_node):
         s = tables.get(tname)
@@ -183,6 +204,7 @@ def printer_language(p, f, pk):
                 results.add(tuple(frozenset([c]) for c in e.get('s', '')))
             elif short(e.get('ref', {}).get('n', '')) == 's':
                 results.add(s)
+                paths.append((s, facts))
             else:
                 raise AnalysisBroken('LANG: return of %s' % e['k'])
             return []
@@ -204,8 +226,28 @@ def printer_language(p, f, pk):
         if k == 'CXXOperatorCallExpr' and st.get('op') == '+=':
             ks = kids(st)
             if short(strip_casts(ks[1]).get('ref', {}).get('n', '')) == 's':
-                return [(s + value_of(ks[2], s), facts)]
+                f2 = dict(facts)
+                t = canon(f, ks[2], inline=False).replace(' ', '')
+                if t.startswith('file_str[file(from(move))]'):
+                    f2['#D'] = f2.get('#D', frozenset()) | {'file'}
+                if t.startswith('rank_str[rank(from(move))]'):
+                    f2['#D'] = f2.get('#D', frozenset()) | {'rank'}
+                return [(s + value_of(ks[2], s), f2)]
             return [(s, facts)]
+        if k == 'CXXOperatorCallExpr' and st.get('op') == '=':
+            ks = kids(st)
+            tgt = strip_casts(ks[1]).get('ref', {})
+            calls = [x for x in walk(ks[2]) if x.get('callee', {}).get('n', '').startswith('engine::filter')]
+            if tgt.get('k') == 'Local' and calls:
+                src = None
+                for x in walk(kids(calls[0])[1]):
+                    if x.get('ref', {}).get('k') == 'Local':
+                        src = x['ref']['n']
+                        break
+                lam = [x for x in walk(calls[0]) if x.get('lambda')]
+                f2 = dict(facts)
+                f2['#attrs:' + tgt['n']] = frozenset(f2.get('#attrs:' + (src or tgt['n']), frozenset()) | (lambda_attrs(lam[0]) if lam else set()))
+                return [(s, f2)]
         if k == 'DeclStmt':
             for d in kids(st):
                 if d['k'] == 'VarDecl' and d.get('name') == 's':
@@ -239,6 +281,13 @@ def printer_language(p, f, pk):
             lit = [x.get('s') for x in walk(c) if x['k'] == 'StringLiteral']
             if lit == ['']:
                 return facts if ((len(s) == 0) == truth) else None
+        m_ = re.match(r'^\((\w+)\.size\(\)>1\)$', t)
+        if m_:
+            f2 = dict(facts)
+            f2['#ev'] = tuple(f2.get('#ev', ())) + ((f2.get('#attrs:' + m_.group(1), frozenset()), truth),)
+            key, val = t + '@%d' % len(f2['#ev']), truth
+            f2[key] = val
+            return f2
         key, val = t, truth
         if '!=' in t and '==' not in t:
             key, val = t.replace('!=', '=='), not truth
@@ -249,7 +298,7 @@ def printer_language(p, f, pk):
         return f2
 
     run(kids(f.body), (), {})
-    return results
+    return results, paths
 
 
 def check(ctx):
@@ -262,7 +311,7 @@ def check(ctx):
         ctx.analysed(f)
 
     # ---- R1 LANG -------------------------------------------------------------------------------------------
-    base = printer_language(p, swc, pk)
+    base, ppaths = printer_language(p, swc, pk)
     ctx.floor('C17.R1.printer-forms', len(base), 8, 'abstract printer strings')
     # suffixes added by san()
     suffixes = set()
@@ -336,6 +385,24 @@ def check(ctx):
     # the castling comparison precedes the regex (so a castling string never reaches the loop)
     ctx.ob('C17.R1.castling-literals', 'parse_san', {'O-O', 'O-O-O'} <= lits,
            'parse_san recognises the castling spellings the printer emits (%s)' % sorted(lits), site=ps.loc())
+
+    # disambiguation: what is printed about the origin must single the mover out among the candidates
+    base_attrs = {'kind', 'target', 'promotion'}
+    n_dp = 0
+    bad_dp = []
+    for form, facts in ppaths:
+        D = set(facts.get('#D', frozenset()))
+        ev = facts.get('#ev', ())
+        n_dp += 1
+        if {'file', 'rank'} <= D:
+            continue
+        ok = any((not truth) and base_attrs <= set(attrs) and set(attrs) <= base_attrs | D for attrs, truth in ev)
+        if not ok:
+            bad_dp.append((sorted(D), [(sorted(a), t) for a, t in ev]))
+    ctx.ob('C17.R3.disambiguation', 'san_without_check', n_dp >= 8 and not bad_dp,
+           'on every path the printed origin information (nothing / file / rank / both) is justified by a test that at most one candidate '
+           'shares exactly that information (%d paths)%s' % (n_dp, '' if not bad_dp else ': unjustified %s' % bad_dp[:2]),
+           site=swc.loc(), detail={'unjustified': str(bad_dp[:4])})
 
     # ---- R2 field validity (C15.R2) ------------------------------------------------------------------------------
     import props.C15 as c15
